@@ -15,9 +15,9 @@ import vlib
 from vlib import Check, run_tlc, run_cmd, build_harness, FrameworkError, WORK, log
 
 LATTICE = ["rv1", "rv2", "rv3", "so2", "so3", "time", "disc", "torus", "se2", "se3", "nest", "hybrid",
-           "rot3", "wrap-se2", "wrap-so3", "wrap-nest"]
+           "rot3", "wrap-se2", "wrap-so3", "wrap-nest", "se2w", "se3w", "nest-se2w", "nest-se3w", "wrap-se2w"]
 # heaviest first so that the pool finishes evenly
-ORDER = ["se3", "nest", "rot3", "se2", "torus", "so3", "wrap-so3", "wrap-nest", "so2", "rv3", "rv2", "hybrid",
+ORDER = ["se3", "nest", "rot3", "se3w", "nest-se3w", "se2", "se2w", "nest-se2w", "wrap-se2w", "torus", "so3", "wrap-so3", "wrap-nest", "so2", "rv3", "rv2", "hybrid",
          "wrap-se2", "rv1", "time", "disc"]
 INVARIANTS = {6: "NonNegative Identity Positivity Symmetry ExtentBound CompoundIsWeightedSum Triangle",
               7: "Endpoints StaysInBounds Reparameterisation Proportionality"}
